@@ -1,18 +1,20 @@
-INIT Init
-NEXT MCNext
+INIT SInit
+NEXT SNext
 CONSTANTS
-  Stacks <- Stacks2
-  Indeps <- Both
+  Stacks <- StackFull1
+  Indeps <- OnlyIndep
   Targets <- AllTargets
-  MaxHooks = 1
+  MaxHooks = 0
   InitRegs <- NoRegs
   RegClasses <- C4RegClasses
-  RegBehs <- C4RegBehsAll
-  MaxRegs = 4
+  RegBehs <- C4RegBehs
+  MaxRegs = 2
   RaiseClasses <- C4Raise
   RenderClasses <- C4Render
   Mro <- MCMro
   StatusOf <- MCStatus
+  OwnVary <- MCOwnVary
+  MaxReqs = 1
   WrongDesign = "none"
-  MaxFaults = 3
+  MaxFaults = 1
 INVARIANT Emit
